@@ -436,6 +436,129 @@ fn report(sched: &'static Sched, header: &str, status: String) -> ! {
     std::process::exit(0)
 }
 
+
+// ------------------------------------------------------------------------------------------------
+/// smoke run (`smoke=1`): the same pipeline through `build()` — the repository's own `ThreadedExecutor`, real OS threads,
+/// no scheduler (no hook is registered, the facade passes straight through). The events are reported per thread (there is
+/// no global order), so only per-handler delivery, payloads and termination are judged.
+struct SmokeH {
+    k: usize,
+    j: usize,
+    log: Arc<std::sync::Mutex<Vec<String>>>,
+}
+impl EventHandler<u64> for SmokeH {
+    fn handle_event(&self, event: &u64, sequence: Sequence, eob: bool) {
+        self.log.lock().unwrap().push(format!("H{}.{} handle {} {} {} {} {} => -", self.k, self.j, self.k, self.j, sequence, *event, eob as u8));
+    }
+}
+struct SmokeHM {
+    k: usize,
+    j: usize,
+    log: Arc<std::sync::Mutex<Vec<String>>>,
+}
+impl EventHandlerMut<u64> for SmokeHM {
+    fn handle_event(&mut self, event: &mut u64, sequence: Sequence, eob: bool) {
+        self.log.lock().unwrap().push(format!("H{}.{} handle {} {} {} {} {} => -", self.k, self.j, self.k, self.j, sequence, *event, eob as u8));
+        *event = transform(*event, self.k, self.j);
+    }
+}
+
+fn smoke_writer<P: EventProducer<'static, Item = u64>>(p: &P, w: usize, batches: &[usize], tid: &str, log: &Arc<std::sync::Mutex<Vec<String>>>) {
+    let mut counter: u64 = 0;
+    for &b in batches {
+        let items: Vec<u64> = (0..b).map(|_| { counter += 1; ((w as u64 + 1) << 32) | counter }).collect();
+        log.lock().unwrap().push(format!("{tid} wbegin {b} => -"));
+        let mut mine: Vec<String> = Vec::new();
+        let cell = std::cell::RefCell::new(&mut mine);
+        p.write(items, |slot, seq, item| {
+            cell.borrow_mut().push(format!("{tid} write {seq} {item} => -"));
+            *slot = *item;
+        });
+        let mut l = log.lock().unwrap();
+        l.extend(mine);
+        l.push(format!("{tid} wend => -"));
+    }
+}
+
+macro_rules! smoke_produce {
+    (single, $producer:ident, $cfg:ident, $log:ident) => {{
+        smoke_writer(&$producer, 0, &$cfg.writers[0], "M", $log);
+        $log.lock().unwrap().push("M drain => -".into());
+        $producer.drain();
+        $log.lock().unwrap().push("M drained => -".into());
+    }};
+    (multi, $producer:ident, $cfg:ident, $log:ident) => {{
+        let producer = Arc::new($producer);
+        let hs: Vec<_> = $cfg
+            .writers
+            .iter()
+            .cloned()
+            .enumerate()
+            .map(|(w, batches)| {
+                let p = producer.clone();
+                let log = $log.clone();
+                std::thread::spawn(move || smoke_writer(&*p, w, &batches, &format!("W{w}"), &log))
+            })
+            .collect();
+        for h in hs {
+            let _ = h.join();
+        }
+        let producer = Arc::try_unwrap(producer).ok().expect("producer still shared");
+        $log.lock().unwrap().push("M drain => -".into());
+        producer.drain();
+        $log.lock().unwrap().push("M drained => -".into());
+    }};
+}
+
+fn smoke_pipeline<const N: usize>(cfg: &Cfg, log: &Arc<std::sync::Mutex<Vec<String>>>) {
+    macro_rules! go {
+        ($b1:expr, $mk:ident, $kind:ident) => {{
+            let stages = cfg.stages.clone();
+            let mk_stage = |scope: &mut BarrierScope<'static, _, _, u64>, k: usize, stage: &Vec<bool>| {
+                for (j, &m) in stage.iter().enumerate() {
+                    if m {
+                        scope.handle_events_mut(SmokeHM { k, j, log: log.clone() });
+                    } else {
+                        scope.handle_events(SmokeH { k, j, log: log.clone() });
+                    }
+                }
+            };
+            let mut b3 = $b1.$mk().with_barrier(|scope| mk_stage(scope, 0, &stages[0]));
+            for k in 1..stages.len() {
+                b3 = b3.with_barrier(|scope| mk_stage(scope, k, &stages[k]));
+            }
+            let (executor, producer) = b3.build();
+            let handle = executor.spawn();
+            smoke_produce!($kind, producer, cfg, log);
+            handle.join();
+            log.lock().unwrap().push("M joined => -".into());
+        }};
+    }
+    let b0 = RustDisruptorBuilder::with_ring_buffer::<u64, N>(N);
+    match (cfg.block, cfg.multi) {
+        (false, false) => go!(b0.with_spin_wait(), with_single_producer, single),
+        (true, false) => go!(b0.with_blocking_wait(), with_single_producer, single),
+        (false, true) => go!(b0.with_spin_wait(), with_multi_producer, multi),
+        (true, true) => go!(b0.with_blocking_wait(), with_multi_producer, multi),
+    }
+}
+
+/// runs one smoke case in this process and prints its events; never returns (the parent's watchdog handles hangs)
+pub fn run_smoke(args: &[String]) -> ! {
+    let refs: Vec<&str> = args.iter().map(|s| s.as_str()).collect();
+    let cfg = parse_cfg(&refs);
+    let log: Arc<std::sync::Mutex<Vec<String>>> = Arc::new(std::sync::Mutex::new(Vec::new()));
+    let res = std::panic::catch_unwind(std::panic::AssertUnwindSafe(|| {
+        with_n!(cfg.n, smoke_pipeline, &cfg, &log);
+    }));
+    println!("HEADER smoke");
+    for l in log.lock().unwrap().iter() {
+        println!("{l}");
+    }
+    println!("end steps=0 schedule=- => {}", if res.is_ok() { "ok" } else { "panic" });
+    std::process::exit(0)
+}
+
 // ------------------------------------------------------------------------------------------------
 /// parent-side interpreter: every `case` line spawns a child process and forwards its trace
 #[derive(Default)]
@@ -446,8 +569,9 @@ pub struct Ring {
 /// runs one case in a child process; returns the header tokens and the trace lines (always closed by an `end` line)
 fn run_child(tokens: &[String]) -> (String, Vec<String>) {
     let exe = std::env::current_exe().unwrap();
+    let mode = if tokens.iter().any(|t| t == "smoke=1") { "--ring-smoke" } else { "--ring-one" };
     let mut child = std::process::Command::new(exe)
-        .arg("--ring-one")
+        .arg(mode)
         .args(tokens)
         .stdout(std::process::Stdio::piped())
         .stderr(std::process::Stdio::null())
